@@ -562,6 +562,7 @@ func genMain(args []string) {
 // random structured queries with every leaf kind, with and without default field, all spacing styles
 func genRand(n int) {
 	for i := 0; i < n; i++ {
+		newPalette()
 		t := genTree(1+rng.Intn(4), rng.Intn(3) != 0)
 		if rng.Intn(3) == 0 {
 			t = addPars(t, 0.2)
